@@ -92,6 +92,14 @@ pub struct ZXScreen<FB: FrameBuffer> {
     active_bank: usize,
 }
 
+#[cfg(rustzx_verif)]
+impl<FB: FrameBuffer> ZXScreen<FB> {
+    /// Verification hook: move the beam cursor to `clocks` without rendering
+    pub fn verif_resync(&mut self, clocks: usize) {
+        self.last_blocks = BlocksCount::from_clocks(clocks, self.machine);
+    }
+}
+
 impl<FB: FrameBuffer> ZXScreen<FB> {
     /// Constructs new canvas of `machine`
     pub fn new(machine: ZXMachine, context: FB::Context) -> Self {
